@@ -117,3 +117,64 @@ pub fn probe_negative(scratch: &Path) -> (Vec<Value>, Value) {
     }
     (viol, json!(results))
 }
+
+/// Store-level replay of the model's `ghost_then_negative_refuted`, with the calls the chain service
+/// makes: insert_block; delete_unverified_block (get_block, delete_block); the extension LRU (30
+/// entries) turns over; somebody asks get_block(hash); the block is stored again (a re-delivered
+/// orphan); get_block(hash) — what the chain service would verify.
+pub fn probe_ghost_chain(scratch: &Path) -> (Vec<Value>, Value) {
+    let ccfg = ChainCfg { window: (2, 10), ..Default::default() };
+    let (consensus, _funds) = make_consensus(&ccfg);
+    let mut viol = vec![];
+    let mut results = vec![];
+    for (name, size) in [("default caches", None), ("all caches disabled", Some(0usize))] {
+        let c = cfg(name, size);
+        let dir = scratch.join(format!("probe-gc-{}", size.map(|x| x.to_string()).unwrap_or("d".into())));
+        let _ = std::fs::remove_dir_all(&dir);
+        let x = Node::on_disk(&consensus, &dir, store_config(&c));
+        let bd = Node::temp(&consensus);
+        let b1 = build_block(&bd, &plan(vec![], vec![], 1));
+        bd.process(&b1).expect("b1"); x.process(&b1).expect("b1");
+        let b2: BlockView = build_block(&bd, &plan(vec![], vec![], 2));
+        let store = x.shared.store();
+        let h = b2.hash();
+        {
+            let txn = store.begin_transaction();
+            txn.insert_block(&b2).unwrap();
+            txn.commit().unwrap();
+        }
+        // chain::delete_unverified_block
+        {
+            let txn = store.begin_transaction();
+            let loaded = txn.get_block(&h).expect("stored");
+            txn.delete_block(&loaded).unwrap();
+            txn.commit().unwrap();
+        }
+        // other traffic on the extension cache
+        for i in 0..40u8 {
+            let other = ckb_types::packed::Byte32::new([i.wrapping_add(1); 32]);
+            let _ = store.get_block_extension(&other);
+        }
+        let ghost = std::panic::catch_unwind(std::panic::AssertUnwindSafe(|| store.get_block(&h)));
+        let ghost_desc = match &ghost { Ok(Some(b)) => format!("Some(block with {} transactions, extension {})", b.transactions().len(), b.extension().is_some()), Ok(None) => "None".into(), Err(_) => "panic".into() };
+        {
+            let txn = store.begin_transaction();
+            txn.insert_block(&b2).unwrap();
+            txn.commit().unwrap();
+        }
+        let again = store.get_block(&h);
+        let same = again.as_ref().map(|b| b.data().as_slice() == b2.data().as_slice());
+        results.push(json!({"node": name, "get_block_of_deleted_block": ghost_desc, "get_block_after_storing_it_again_equals_the_block": same,
+            "extension_after_storing_again": again.as_ref().map(|b| b.extension().is_some()), "block_has_extension": b2.extension().is_some()}));
+        if same != Some(true) || ghost_desc != "None" {
+            viol.push(json!({
+                "what": format!("[{name}] store-level: after insert_block, delete_unverified_block's get_block+delete_block and 40 other extension reads, get_block(hash) of the deleted block answers {ghost_desc}; after the block is stored again get_block(hash) {} the stored block (extension present: {:?}, the block has one: {})",
+                    if same == Some(true) { "equals" } else { "DIFFERS from" }, again.as_ref().map(|b| b.extension().is_some()), b2.extension().is_some()),
+                "signature": "C14-deleted-block-served-from-cache",
+                "detail": {"stream": "probe", "probe": "ghost_chain"}}));
+        }
+        x.stop(); bd.stop();
+        let _ = std::fs::remove_dir_all(&dir);
+    }
+    (viol, json!(results))
+}
